@@ -34,6 +34,7 @@ Alphabet == {Ch(x) : x \in NameChars}
 ASSUME \A c \in Alphabet : Len(c) = 1
 
 XC == CompF(T("xc"))
+CC == CompF(T("component"))                        \* django_components.component_formatter (reached by import string)
 KF == AffixF(T("k."), <<>>, T("/k."), <<>>)        \* {% k.n %} .. {% /k.n %}   (forward slash, CHANGELOG)
 EF == AffixF(T("e."), <<>>, T("end e."), <<>>)     \* end tag with a space: start tag fine, end tag invalid
 MW == AffixF(<<>>, T(" c"), End, <<>>)             \* multi-word start tag
@@ -42,7 +43,7 @@ CompName == [kind |-> "compname", tag |-> <<>>, sp |-> <<>>, ss |-> <<>>, ep |->
 Other == <<"b", "1">>                              \* a second component registered next to the one used
 
 (* ------------------------------ tags ----------------------------------- *)
-TagFmts == {ShortF, XC, SL, MW, EF, KF, CompName}
+TagFmts == {ShortF, XC, CC, SL, MW, EF, KF, CompName}
 TFmt  == IF fmt.kind = "compname" THEN CompF(name) ELSE fmt
 TName == IF fmt.kind = "compname" THEN <<"a">> ELSE name
 TagsInit == fmt \in TagFmts /\ name = <<>> /\ form = "-" /\ pre = <<>> /\ post = <<>> /\ uk = "-" /\ av = 0
